@@ -119,13 +119,21 @@ def gen_prim(rng, nv, nn, ntex, ntexv, ntan=0):
 def gen_geom(rng):
     nv = rng.randint(3, 8)
     verts = [rng.randint(-5, 5) for _ in range(3 * nv)]
+    # values that 7 significant digits do not reproduce as float32 (what a save writes is '%.7g')
+    ODD = [0.123456789, 1.00000012, 1234.56789, -0.333333343, 1.0 / 3.0, 0.1, 16777215.0, -2.7182817459106445]
+    if rng.random() < 0.6:
+        for _ in range(rng.randint(1, 4)):
+            verts[rng.randrange(len(verts))] = rng.choice(ODD)
     nn = rng.choice([0, 2, 4])
     normals = []
     for _ in range(nn):
         normals += rng.choice([[1, 0, 0], [0, 1, 0], [0, 0, 1], [0, 0, -1], [2, 0, 0], [0, 3, 4], [0, 0, 0]])
     ntex = rng.choice([0, 0, 1, 2])
     ntexv = rng.randint(2, 5)
-    tex = [[rng.randint(0, 4) / 4.0 for _ in range(2 * ntexv)] for _ in range(ntex)]
+    tex = [[rng.choice([rng.randint(0, 4) / 4.0, rng.randint(0, 4) / 4.0, 0.123456789, 1.0 / 3.0]) for _ in range(2 * ntexv)]
+           for _ in range(ntex)]
+    if nn and rng.random() < 0.4:
+        normals[rng.randrange(len(normals))] = rng.choice([0.577350259, -0.333333343, 0.123456789])
     ntan = rng.choice([0, 0, 2, 3])
     g = {'verts': verts, 'normals': normals, 'tex': tex, 'double_sided': rng.random() < 0.2,
          'normal_names': rng.choice([['X', 'Y', 'Z'], ['X', 'Y', 'Z'], ['A', 'B', 'C']]),
